@@ -292,7 +292,7 @@ def make_sink(w, flavour, log):
 
 # ------------------------------------------------------------------ building the TestCase
 
-def build_case(w, prog, log, clock, scratch, sink_factory, hints=frozenset()):
+def build_case(w, prog, log, clock, scratch, sink_factory, hints=()):
     _, skip_deco, xfail_deco, su, bo, td, handlers, n_on_exc, attrs0, flavour = prog
     tt = w.tt
 
@@ -424,7 +424,15 @@ def build_case(w, prog, log, clock, scratch, sink_factory, hints=frozenset()):
     if xfail_deco:
         T.test = unittest.expectedFailure(T.test)
     if skip_deco is not None:
-        T.test = unittest.skip('reason-%d' % skip_deco[1])(T.test)
+        # realisation hint ['skip', k]: which of the equivalent skip decorators is used, on the method or on the class
+        real = next((h[1] for h in hints if isinstance(h, list) and h[0] == 'skip'), 0)
+        why = 'reason-%d' % skip_deco[1]
+        import testtools.testcase as ttc
+        deco = [unittest.skip(why), ttc.skip(why), ttc.skipIf(True, why), ttc.skipUnless(False, why)][real % 4]
+        if real >= 4:
+            T = deco(T)
+        else:
+            T.test = deco(T.test)
     case = T('test')
     for (cls, rep) in reversed(handlers):
         o = rep[-1]
@@ -487,7 +495,7 @@ def run_program(inp):
     """-> list of trace trees, one per run of the same instance"""
     w = world()
     prog, runs = inp[0], inp[1]
-    hints = set(inp[2]) if len(inp) > 2 else set()
+    hints = list(inp[2]) if len(inp) > 2 else []
     flavour = prog[-1]
     attrs0 = prog[8]
     log = []
@@ -704,6 +712,10 @@ def gen_input(rng, focus='all'):
             st[3] = ['raise1', g.exc([('exc', 3), ('failure', 2), ('skip', 1)])]
         if not (prog[2] and st is prog[4]):       # not under the expectedFailure decorator (it would wrap the exception)
             hints.append(st[1])
+    if prog[1] is not None:
+        k = rng.randrange(8)
+        if k:
+            hints.append(['skip', k])
     return [prog, runs, hints] if hints else [prog, runs]
 
 
@@ -741,7 +753,7 @@ def exc_kinds(prog):
 
 def features(inp, traces):
     prog, runs = inp[0], inp[1]
-    f = ['flavour=' + prog[-1], 'runs=%d' % runs] + (['hint:fixture-getDetails-raises'] if len(inp) > 2 else [])
+    f = ['flavour=' + prog[-1], 'runs=%d' % runs] + (['hint:fixture-getDetails-raises'] if len(inp) > 2 and any(isinstance(h, int) for h in inp[2]) else []) + ['hint:skip-decorator-%d' % h[1] for h in (inp[2] if len(inp) > 2 else []) if isinstance(h, list)]
     sts = list(all_stages(prog))
     faulty = [s for s in sts if s[3] != 'ret']
     f.append('stages=%s' % (len(sts) if len(sts) < 8 else '8+'))
